@@ -505,6 +505,7 @@ class CExecPyObj(CExecL3):
         if name == "PyObject_RichCompare":
             a, b = self.oid(self.ev(st, argn[0])), self.oid(self.ev(st, argn[1]))
             opc = self.ev(st, argn[2])
+            self.no_pending_exception(st, name, n)
             rid = richcmp_obj(a, b, opc.t)
             st.path.append(rid >= 0)          # 0: NULL (an exception was raised by CPython's comparison)
             e2 = self.fresh("err_after_richcmp")
@@ -512,9 +513,12 @@ class CExecPyObj(CExecL3):
             st.path.append(z3.Implies(rid == 0, e2 != 0))        # NULL comes with an exception set
             st.err = e2
             self.assumptions.add("PyObject_RichCompare(a, b, op) is CPython's own comparison (its result object, or NULL with an exception)")
-            return Ptr(ty, "pyobj", rid)
-        if name == "__Pyx_PyObject_IsTrueAndDecref":
+            from .cfe import mark_nullable
+            return Ptr(ty, "pyobj", mark_nullable(rid))
+        if name in ("__Pyx_PyObject_IsTrueAndDecref", "__Pyx_PyObject_IsTrue", "PyObject_IsTrue"):
             x = self.oid(self.ev(st, argn[0]))
+            # (IsTrueAndDecref(NULL) is the documented pass-through of a failed comparison: -1, nothing is called)
+            self.no_pending_exception(st, name, n, unless=(x == 0) if name == "__Pyx_PyObject_IsTrueAndDecref" else None)
             r = self.fresh("istrue")
             st.path.append(z3.And(r >= -1, r <= 1, r == truth_of(x), z3.Implies(x == 0, r == -1)))
             e2 = self.fresh("err_after_istrue")
@@ -547,6 +551,12 @@ class CExecPyObj(CExecL3):
             st.err = z3.If(b, z3.IntVal(0), st.err)
             return from_bool(b, ty)
         return CExecL3.call(self, st, name, argn, n)
+
+    def no_pending_exception(self, st, name, n, unless=None):
+        """C-API rule: a function that may run Python code must not be entered with the error indicator set (CPython asserts this in
+        debug builds; in release builds the pending exception is lost or the call returns a result WITH an exception set)."""
+        if st.err is not None:
+            self.oblige(st, "pre", "%s.no_exception_pending_at_the_call" % name, st.err == 0 if unless is None else z3.Or(unless, st.err == 0), n)
 
     def ev_CallExpr(self, st, n):
         callee = n["inner"][0]
